@@ -238,7 +238,7 @@ def run(ctx):
     ctx.note('%d timed executions of %d entry points on %d transports in %.0fs' % (len(recs), len(ENTRIES), len(TRANSPORTS), time.time() - t0))
     errs = [r for r in recs if 'error' in r]
     if errs:
-        raise tlc.TLCError('timed execution crashed: %s\n%s' % (errs[0]['id'], errs[0]['error']))
+        raise tlc.TLCError('timed execution crashed: %s\n%s' % ({k: errs[0].get(k) for k in ('transport', 'entry', 'targ', 'start', 'events', 'k')}, errs[0]['error']))
     # TLC validates: 'C' (hang-up without exit) is a hang-up for the specification
     traces = [to_trace(r) for r in recs]
     clauses, accepted, st = validate(ctx, traces)
